@@ -42,8 +42,9 @@ META = {
     "level_note": "Snapshot atomicity is required of the lists returned by Players, Servers and Range/PlayersToSlice; "
                   "of DisconnectAll only that it disconnects everybody registered during the whole call and nobody "
                   "never registered during it. Forced schedules synchronise the threads through the gates, so data "
-                  "races are looked for in the free-running -race run only (quick: few rounds; thorough: many, and "
-                  "the forced schedules run under -race too). The race detector sees executed schedules only. "
+                  "races are looked for in the free-running -race run (quick: few rounds; thorough: many); the forced "
+                  "schedules run under -race as well (one build flavour), but can only show races of goroutines the "
+                  "gates do not order. The race detector sees executed schedules only. "
                   "Schedules are sampled from the lock-ignoring model (exhaustive export is ~10^6).",
     "technique": "TLA+ code-shaped model + abstract acceptor, TLC schedule sampling, forced replay on real code, "
                  "TLC trace validation, race detector on a free-running child process",
@@ -56,8 +57,21 @@ NEED = ["list.players.iter", "list.players.step", "list.disconnectall.iter", "li
 CHUNK = 25
 
 
+def par(jobs):
+    """Run independent TLC jobs side by side (starts staggered: Ctx.tlc numbers its scratch
+    dirs with a plain counter)."""
+    import time
+    from concurrent.futures import ThreadPoolExecutor
+    with ThreadPoolExecutor(len(jobs)) as ex:
+        futs = []
+        for fn in jobs:
+            futs.append(ex.submit(fn))
+            time.sleep(0.5)
+        return [f.result() for f in futs]
+
+
 def must_violate(ctx, cfg, what, inv):
-    r = ctx.tlc("Listing", cfg, allow_violation=True, count=False)
+    r = ctx.tlc("Listing", cfg, allow_violation=True, count=False, workers=2, heap="2g")
     if r.violated != inv:
         raise vlib.ToolError("%s: expected a violation of %s, got %s" % (cfg, inv, r.violated))
     ctx.log("Listing (%s): violates %s (non-vacuity ok)" % (what, inv))
@@ -156,28 +170,66 @@ def rj_key(rj):
     return "%s:%s" % (ev, head.get("kind"))
 
 
+def replay(ctx):
+    """bin/vcheck C12 quick --replay <evidence/replay/C12/x.json>: force that schedule again
+    (or, for a race report, run the free-running -race child again)."""
+    rp = json.load(open(ctx.replay))["replay"] or {}
+    s = None
+    if rp.get("run"):
+        h = rp["run"][0]
+        s = {"init": h["init"], "wprog": h["wprog"], "sched": h["sched"], "kind": h["kind"]}
+    elif rp.get("sched"):
+        s = rp["sched"]
+    tstates = matched = 0
+    if s is not None:
+        with open(ctx.path("sched.json"), "w") as fh:
+            json.dump([s] * 12, fh)
+        recs, _, crashes = run_forced(ctx, [s] * 12, True, "trace", {"VERIF_HUNG_MS": 8000}, max_crashes=2)
+        for c in crashes:
+            ctx.finding(c["key"], "replayed schedule killed the process again: %s" % c["msg"], c)
+        if recs:
+            rejected, matched, tstates = ctx.validate_runs("ListingHist_Trace", recs, dfs=True)
+            for r in rejected:
+                ctx.finding(rj_key(r), "replayed schedule rejected again (first unexplained event: %s)"
+                            % json.dumps(r["bad"]), r)
+    else:
+        p = ctx.harness("./c12", "TestRace", race=True, timeout=1200, check=False, env={"VERIF_ROUNDS": 40})
+        found = dict(race_keys(p.stdout))
+        ck = crash_key(p.stdout)
+        if ck:
+            found[ck[0]] = ck[1]
+        for k, rep in sorted(found.items()):
+            ctx.finding(k, "free-running -race run reported again", {"report": rep})
+    return ctx.finish("model_checking", {"states": tstates, "samples": [s or "TestRace"], "evaluations": 12,
+                                         "distinct_nontrivial": 2, "rule": "replay of one recorded schedule / report",
+                                         "trace_events_validated": matched, "exhaustive": False}, ["replay run"])
+
+
 def run(ctx):
-    r = ctx.tlc("Listing", ctx.pick("Listing.cfg", "Listing_full.cfg"))
+    if ctx.replay:
+        return replay(ctx)
+    r, nv1, nv2, nv3, s1, s2 = par([
+        lambda: ctx.tlc("Listing", ctx.pick("Listing.cfg", "Listing_full.cfg"), count=False,
+                        workers=ctx.pick(4, 8), heap="4g"),
+        lambda: must_violate(ctx, "Listing_unlocked.cfg", "lock ignored", "NoIterWriteOverlap"),
+        lambda: must_violate(ctx, "Listing_header.cfg", "header copied, iterated after unlock", "NoIterWriteOverlap"),
+        lambda: must_violate(ctx, "Listing_header_snap.cfg", "header copied, iterated after unlock", "SnapshotAtomic"),
+        lambda: ctx.tlc("Listing", "Listing_sched.cfg", workers=1, count=False, heap="3g",
+                        simulate=ctx.pick(200, 6000), depth=14).printed_json("SCHED"),
+        lambda: [] if ctx.quick else ctx.tlc("Listing", "Listing_sched2.cfg", workers=1, count=False, heap="3g",
+                                             simulate=2000, depth=20).printed_json("SCHED"),
+    ])
+    ctx.states += r.distinct
+    ctx.transitions += r.generated
     mc_states = r.distinct
     ctx.log("Listing (iteration under the read lock): %d distinct states, invariants hold" % r.distinct)
-    nonvac = {
-        "lock_ignored": must_violate(ctx, "Listing_unlocked.cfg", "lock ignored", "NoIterWriteOverlap"),
-        "iterate_after_unlock_overlap": must_violate(ctx, "Listing_header.cfg", "header copied, iterated after unlock",
-                                                     "NoIterWriteOverlap"),
-        "iterate_after_unlock_snapshot": must_violate(ctx, "Listing_header_snap.cfg",
-                                                      "header copied, iterated after unlock", "SnapshotAtomic"),
-    }
-
-    s1 = ctx.tlc("Listing", "Listing_sched.cfg", workers=1, count=False, simulate=ctx.pick(200, 6000),
-                 depth=14).printed_json("SCHED")
-    s2 = [] if ctx.quick else ctx.tlc("Listing", "Listing_sched2.cfg", workers=1, count=False, simulate=2000,
-                                      depth=20).printed_json("SCHED")
+    nonvac = {"lock_ignored": nv1, "iterate_after_unlock_overlap": nv2, "iterate_after_unlock_snapshot": nv3}
     scheds = s1 + s2
     ctx.log("schedules: %d (one reader, two writers) + %d (two readers)" % (len(s1), len(s2)))
     with open(ctx.path("sched.json"), "w") as fh:
         json.dump(scheds, fh)
 
-    recs, stats, crashes = run_forced(ctx, scheds, not ctx.quick, "trace")
+    recs, stats, crashes = run_forced(ctx, scheds, True, "trace")
     missing = [g for g in NEED if not stats["gate_arrivals"].get(g)]
     if missing and not crashes:
         raise vlib.ToolError("hook_missing: gates never reached: %s" % missing)
@@ -205,7 +257,7 @@ def run(ctx):
                 again += [s] * 6
         with open(ctx.path("sched_confirm.json"), "w") as fh:
             json.dump(again, fh)
-        crecs, _, ccrashes = run_forced(ctx, again, not ctx.quick, "ctrace",
+        crecs, _, ccrashes = run_forced(ctx, again, True, "ctrace",
                                         {"VERIF_SCHED_FILE": "sched_confirm.json", "VERIF_HUNG_MS": 8000},
                                         max_crashes=len(classes) * 3 + 3)
         for c in ccrashes:
@@ -286,7 +338,7 @@ def run(ctx):
         "race_calls": rstats.get("calls", {}),
         "race_runs": race_runs,
         "race_detector": True,
-        "forced_schedules_under_race_detector": not ctx.quick,
+        "forced_schedules_under_race_detector": True,
         "non_vacuity": nonvac,
         "exhaustive": False,
     }
